@@ -21,14 +21,15 @@ def s_of(n):
     return ('v%d' % n) if n % 2 else ('a b%d' % n)      # even ids need quoting (blank inside)
 
 
-TA_DT = np.dtype([('n', 'i4'), ('s', 'S8')])
+BIG0 = 1237648720693755918        # a 64-bit id that a double cannot hold exactly (every row carries BIG0 + n)
+TA_DT = np.dtype([('n', 'i4'), ('s', 'S8'), ('big', 'i8')])
 TB_DT = np.dtype([('n', 'i4'), ('arr', 'i4', (2,))])
 
 
 def ta_rows(ns):
     a = np.zeros((len(ns),), dtype=TA_DT)
     for i, n in enumerate(ns):
-        a[i] = (n, s_of(n).encode())
+        a[i] = (n, s_of(n).encode(), BIG0 + n)
     return a
 
 
@@ -40,13 +41,14 @@ def tb_rows(ns):
     return a
 
 
-UNSIZED_BASE = '''#%yanny
+UNSIZED_BASE = '''#%%yanny
 # base file with an unsized string column
 k0 0
 
 typedef struct {
     int n;
     char s[];
+    long big;
 } TA;
 
 typedef struct {
@@ -54,8 +56,8 @@ typedef struct {
     int arr[2];
 } TB;
 
-TA 1 v1
-TA 2 "a b2"
+TA 1 v1 %d
+TA 2 "a b2" %d
 '''
 
 
@@ -77,7 +79,7 @@ class World:
             else:
                 # the same base content as a hand-written file whose string column is unsized (char s[])
                 with open(self.path(start), 'w') as fh:
-                    fh.write(UNSIZED_BASE)
+                    fh.write(UNSIZED_BASE % (BIG0 + 1, BIG0 + 2))
             self.par = yanny(self.path(start), raw=raw)
 
     def path(self, f):
@@ -103,7 +105,7 @@ class World:
                     if t == 'TA':
                         s = d['s'][k]
                         s = s.decode() if isinstance(s, bytes) else str(s)
-                        good = s == s_of(n)
+                        good = s == s_of(n) and int(d['big'][k]) == BIG0 + n
                     else:
                         good = [int(x) for x in d['arr'][k]] == [n, n + 1]
                     out.append(n if good else -1)
